@@ -67,15 +67,20 @@ Section Glob.
   (* GlobHandle::open pushes the root directory with segment 0; paths are relative to it *)
   Definition expand (root : node) (segs : list seg) : list (list name) := walk root [] segs.
 
-  (* ---- the declarative meaning of a glob: `**` stands for zero or more path components,
-     any other segment for exactly one ---- *)
+  (* ---- the declarative meaning of a glob (globset): `**` followed by further segments stands for
+     zero or more path components, a trailing `**` for one or more ("foo/** matches foo/a and
+     foo/a/b, but not foo"), any other segment for exactly one ---- *)
   Fixpoint gmatch (segs : list seg) : list name -> bool :=
     match segs with
     | [] => fun p => match p with [] => true | _ => false end
     | s :: rest =>
         if dstar s then
-          (fix star (p : list name) : bool :=
-             gmatch rest p || match p with [] => false | _ :: p' => star p' end)
+          match rest with
+          | [] => fun p => match p with [] => false | _ :: _ => true end
+          | _ :: _ =>
+              (fix star (p : list name) : bool :=
+                 gmatch rest p || match p with [] => false | _ :: p' => star p' end)
+          end
         else fun p => match p with [] => false | n :: p' => m (sid s) n && gmatch rest p' end
     end.
 
